@@ -27,7 +27,7 @@ CHECKS = {
          "GenCond.tla enumerates every well-nested directive sequence up to the bound (exhaustive over the minimal condition alphabet, simulated over the rich one) together with the outcome the reference semantics CppRef prescribes (kept lines, final macro table, #error); each is run through the real preprocessor and compared. TLC also checks, on every sequence, that the implementation-shaped three-state machine CppImpl equals CppRef, and validates recorded H2 event traces against CppImpl.",
          "Trusted: TLC, CppRef (first-true-branch rule), renderer of directive lines. Condition operators limited to those the property names."),
  "C09": (MC, "TLC: GenLit generator + Lexer.tla decoding oracle; replay of literals in nine contexts into the real compiler", "6.C09",
-         "GenLit.tla enumerates literal bodies (all bodies of <=2 symbols quick, <=3 thorough) over Lexer.tla's alphabet - every escape of the property, escaped quotes/backslashes, comment markers, #, @, macro names - in thirteen contexts (initialiser, pointer table, adjacent concatenation, call argument, two calls, array subscript, asm, two per line, after code/before comment, inside #if, after a skipped region, after #else, character constant); the stored bytes must equal Lexer!LiteralBytes. CppScan.tla (the scanner that extracts literals, as coded; see C11): the literals extracted from every text of up to 6/7 characters must be the textbook scanner's.",
+         "GenLit.tla enumerates literal bodies (all bodies of <=2 symbols quick, <=3 thorough) over Lexer.tla's alphabet - every escape of the property, escaped quotes/backslashes, comment markers, #, @, macro names - in thirteen contexts (initialiser, pointer table, adjacent concatenation, call argument, two calls, array subscript, asm, two per line, after code/before comment, inside #if, after a skipped region, after #else, character constant); the stored bytes must equal Lexer!LiteralBytes. GenLitShape.tla: up to 3/4 literals inside one expression in every arrangement of parentheses, subscripts, call arguments and binary operators (depth 3) in three statement contexts: each literal stored once with its own bytes. CppScan.tla (the scanner that extracts literals, as coded; see C11): the literals extracted from every text of up to 6/7 characters must be the textbook scanner's.",
          "Trusted: Lexer.tla symbol table (self-tested), renderer. Literals the compiler refuses are not judged."),
  "C08": (MC, "TLC: GenMacro generator + MacroRef token-level expansion oracle; replay into the real preprocessor (hook H2)", "6.C08",
          "GenMacro.tla enumerates ordered subsets of nine definitions (object-like, function-like with 0-3 parameters, bodies using earlier macros, parameter names occurring inside longer identifiers), #undef/redefinition tails, source vs -D origin, 0-198 filler macros around the 100-macro chunk boundaries, and 45 use sites; the preprocessed token sequence must equal MacroRef!Expand for a tight and a spaced rendering.",
